@@ -127,11 +127,32 @@ class TransitionBatch:
         seen = self.ses.check.outcomes
         k = "%s/%s%s" % (last["op"], last.get("kind"), "/" + last["err"] if last.get("err") else "")
         seen[k] = seen.get(k, 0) + 1
+        self.pending = getattr(self, "pending", 0) + 1
+        if self.pending >= 3000:
+            # bound the memory of big runs: test what has been collected so far (TLC waits on its pipe meanwhile)
+            self.run()
 
     def run(self):
         ses = self.ses
+        self.pending = 0
         for prefix, stable, changing in self.groups.values():
             todo = list(stable)
+            pick = next((c for c in changing if c["op"] in ("open", "seal") and c.get("kind") == "ok"), changing[0]) if changing else None
+            if pick is not None and pick["op"] == "open":
+                # the rejected deliveries made from the SAME message as the one that will be accepted come last, and
+                # of those the ones that keep its tag (damaged body, other aad) very last: whatever a receiver might
+                # remember about a failure, the genuine message arrives right after its closest relatives
+                src = lambda st: (st.get("plain") or {}).get("d") or {}
+                ps = src(pick)
+                rank = lambda st: (st["op"] == "open" and st.get("c") == pick.get("c") and src(st).get("s") == ps.get("s")
+                                   and src(st).get("i") == ps.get("i"),
+                                   src(st).get("k") in ("flipct", "flipaad", "swapaad", "emptyaad", "extendaad", "truncaad"),
+                                   src(st).get("k") == "flipaad")
+                todo.sort(key=rank)
+            if any(st["op"] != "export" for st in stable):
+                # a refused / failed call is a stutter step of the specification: whatever the state answered before
+                # it, it answers after it - so the exports of this state are asked again after the failures
+                todo += [st for st in stable if st["op"] == "export"]
             while todo:
                 # one state, many calls
                 ses.n += 1
@@ -151,14 +172,37 @@ class TransitionBatch:
                         failed_at = i
                         break
                     ses.check.trace_ok()
-                for nme in {pfx + st["c"] for st in allsteps if st.get("c")}:
+                if failed_at is None and stable and changing and not getattr(self, "no_follow", False):
+                    # ... and what the state accepted before those calls it accepts after them: one state-changing call
+                    # (preferably a successful seal / open) is made on the SAME state, after the calls that the
+                    # specification says left it unchanged
+                    if rp.step(pick):
+                        nv = len(ses.check.violations)
+                        if ses.replay(prefix + [pick], exact_tags=self.exact_tags, label=self.label, sample=False, **self.kw):
+                            ses.replay(prefix + todo + [pick], exact_tags=self.exact_tags, sample=False,
+                                       label=self.label + " (after calls that must leave the state unchanged)", **self.kw)
+                        if len(ses.check.violations) == nv:
+                            raise ToolError("a call deviated from the specification after a batch of state-preserving calls "
+                                            "but conforms when replayed: %s" % json.dumps(pick)[:300])
+                    else:
+                        ses.check.trace_ok()
+                for nme in {pfx + st["c"] for st in allsteps + changing if st.get("c")}:
                     ses.ex.call({"op": "drop", "ctx": nme})
                 if failed_at is None:
                     if stable:
                         ses.check.sample({"behaviour": self.label, "calls": [summarise(c, e) for c, e in rp.trace[-3:]]})
                     break
                 # report through the single-behaviour path (fresh executor confirmation), then go on
-                ses.replay(prefix + [todo[failed_at]], exact_tags=self.exact_tags, label=self.label, sample=False, **self.kw)
+                nv = len(ses.check.violations)
+                ok = ses.replay(prefix + [todo[failed_at]], exact_tags=self.exact_tags, label=self.label, sample=False, **self.kw)
+                if ok and failed_at > 0:
+                    # the call conforms on a freshly created state: the deviation needs the calls made before it on this
+                    # state - calls the specification says change nothing (refusals, rejections, exports)
+                    ok = ses.replay(prefix + todo[:failed_at + 1], exact_tags=self.exact_tags, sample=False,
+                                    label=self.label + " (after calls that must leave the state unchanged)", **self.kw)
+                if ok and len(ses.check.violations) == nv:
+                    raise ToolError("a call deviated from the specification when made in a batch on one state but conforms "
+                                    "when replayed: %s" % json.dumps(todo[failed_at])[:300])
                 todo = todo[failed_at + 1:]
             for last in changing:
                 ses.replay(prefix + [last], exact_tags=self.exact_tags, label=self.label,
